@@ -466,6 +466,53 @@ class ConcRun(object):
                 batch.append(op)
             if rng.random() < 0.5:
                 batch.reverse()
+        elif self.focus == 'consumer' and rng.random() < 0.08 and \
+                m.inventories and \
+                [x for x in g.C if x not in m.consumers]:
+            # a first write for a consumer, racing a write that carries the
+            # fabricated generation 0 for it AND is refused for another
+            # reason (over capacity): refused it must stay without effect -
+            # also on the record the first request has just created
+            c = rng.choice([x for x in g.C if x not in m.consumers])
+            allC = g.C
+            g.C = [c]
+            first = None
+            for _ in range(10):
+                first = g.g_alloc_put(m, force_version=rng.choice(
+                    ['1.28', '1.36', '1.39']))
+                if first is not None and not first.get('defect') and \
+                        first['b'].get('allocations'):
+                    break
+                first = None
+            g.C = allC
+            if first is None:
+                return None
+            rp_, rc_ = rng.choice(sorted(
+                k for k in m.inventories if k[0] in m.providers))
+            v2 = rng.choice(['1.28', '1.34', '1.38', '1.39'])
+            entry = {'allocations': {rp_: {'resources': {rc_: 10 ** 6}}},
+                     'project_id': 'proj-0', 'user_id': 'user-0',
+                     'consumer_generation': 0}
+            if M.ver(v2) >= (1, 38):
+                entry['consumer_type'] = 'INSTANCE'
+            second = {'m': 'POST', 'p': '/allocations', 'v': v2,
+                      'b': {c: entry}, 'kind': 'alloc_post'}
+            if rng.random() < 0.4:
+                second = {'m': 'POST', 'p': '/reshaper', 'v': rng.choice(
+                    ['1.30', '1.38']) if M.ver(v2) < (1, 38) else '1.39',
+                    'kind': 'reshape',
+                    'b': {'inventories': {}, 'allocations': {c: dict(
+                        entry)}}}
+                if M.ver(second['v']) < (1, 38):
+                    second['b']['allocations'][c].pop('consumer_type', None)
+                else:
+                    second['b']['allocations'][c]['consumer_type'] = \
+                        'INSTANCE'
+            first['kind'] = 'alloc_put'
+            batch = [first, second]
+            if rng.random() < 0.5:
+                batch.reverse()
+            self.probe('failing_adopter_batches')
         elif self.focus == 'consumer':
             c = rng.choice(g.C)
             allC = g.C
@@ -884,10 +931,53 @@ class ConcRun(object):
                          repr(sorted(extra)), kinds)
         # ---- failed requests: status explainable? ---------------------------
         self.check_failure_statuses(batch, kinds, resps, fail)
+        self.check_failed_commits(batch, kinds, fail)
         # ---- CAS specifications by commit order -------------------------------
         self.check_provider_cas(batch, kinds, resps, tasks)
         self.check_consumer_cas(batch, kinds, resps, tasks, natC)
         return tasks
+
+    def check_failed_commits(self, batch, kinds, fail):
+        """What a request answered with an error committed on the way, by
+        the commit log: it may create the consumer records it needs and take
+        them away again, nothing else - in particular it may not remove a
+        consumer record it did not create (another request's), nor touch
+        allocations or provider generations."""
+        prev = self.state0
+        created = {}
+        for e in self.sim.commit_log:
+            cur = e['state']
+            t = e['task']
+            if e['changed'] and t in fail:
+                mine = created.setdefault(t, set())
+                new = set(cur['cons']) - set(prev['cons'])
+                gone = set(prev['cons']) - set(cur['cons'])
+                mine |= new
+                foreign = gone - mine
+                mine -= gone
+                what = []
+                if foreign:
+                    what.append('removed consumer record(s) %s it had not '
+                                'created' % sorted(foreign))
+                if cur['allocs'] != prev['allocs']:
+                    what.append('changed allocations')
+                if cur['prov'] != prev['prov']:
+                    what.append('changed provider generations %r' % sorted(
+                        u for u in set(cur['prov']) | set(prev['prov'])
+                        if cur['prov'].get(u) != prev['prov'].get(u)))
+                if what:
+                    tags = {'C07'} if all(k in self.C07_KINDS
+                                          for k in kinds) else {'C05'}
+                    if carried_consumer_gens(batch[t]) or \
+                            kinds[t] in ('alloc_put', 'alloc_post',
+                                         'reshape'):
+                        tags.add('C06')
+                    self.add(tags, 'failed-request-committed-changes',
+                             'request %d (%s), answered with an error, '
+                             'committed a transaction that %s' % (
+                                 t, kinds[t], '; '.join(what)), kinds)
+                    break
+            prev = cur
 
     # ------------------------------------------------------------------
     C07_KINDS = ('alloc_put', 'alloc_post', 'reshape', 'inv_put_all',
